@@ -55,15 +55,18 @@ func sourceFile(kind string, env EnumEnv, objDesc string, props []Prop) *sourced
 	if env.ExplicitPrefix {
 		enum.Prefix = env.Prefix
 	}
+	for _, f := range env.InfoFields {
+		enum.Info = append(enum.Info, &schema_j5pb.Enum_OptionInfoField{Name: f[0], Label: f[1], Description: f[2]})
+	}
 	if env.Unspecified != "" {
-		enum.Options = append(enum.Options, &schema_j5pb.Enum_Option{Name: env.Unspecified, Description: env.UnspecDesc})
+		enum.Options = append(enum.Options, &schema_j5pb.Enum_Option{Name: env.Unspecified, Description: env.UnspecDesc, Info: env.UnspecInfo})
 	}
 	for i, o := range env.Options {
 		d := ""
 		if i < len(env.OptDescs) {
 			d = env.OptDescs[i]
 		}
-		enum.Options = append(enum.Options, &schema_j5pb.Enum_Option{Name: o, Description: d})
+		enum.Options = append(enum.Options, &schema_j5pb.Enum_Option{Name: o, Description: d, Info: env.optInfo(i)})
 	}
 	str := func(name string) *schema_j5pb.ObjectProperty {
 		return &schema_j5pb.ObjectProperty{Name: name, Schema: &schema_j5pb.Field{Type: &schema_j5pb.Field_String_{String_: &schema_j5pb.StringField{}}}}
@@ -82,6 +85,9 @@ func sourceFile(kind string, env EnumEnv, objDesc string, props []Prop) *sourced
 		Elements: []*sourcedef_j5pb.RootElement{
 			{Type: &sourcedef_j5pb.RootElement_Enum{Enum: enum}},
 			{Type: &sourcedef_j5pb.RootElement_Object{Object: &sourcedef_j5pb.Object{Def: &schema_j5pb.Object{Name: "Bar", Properties: []*schema_j5pb.ObjectProperty{str("x")}}}}},
+			{Type: &sourcedef_j5pb.RootElement_Object{Object: &sourcedef_j5pb.Object{Def: &schema_j5pb.Object{Name: "Baz", Properties: []*schema_j5pb.ObjectProperty{
+				{Name: "y", Schema: &schema_j5pb.Field{Type: &schema_j5pb.Field_Integer{Integer: &schema_j5pb.IntegerField{Format: schema_j5pb.IntegerField_FORMAT_INT32}}}}}}}}},
+			{Type: &sourcedef_j5pb.RootElement_Oneof{Oneof: &sourcedef_j5pb.Oneof{Def: &schema_j5pb.Oneof{Name: "Pick", Properties: []*schema_j5pb.ObjectProperty{str("c")}}}}},
 			{Type: &sourcedef_j5pb.RootElement_Oneof{Oneof: &sourcedef_j5pb.Oneof{Def: &schema_j5pb.Oneof{Name: "Choice", Properties: []*schema_j5pb.ObjectProperty{str("a"),
 				{Name: "b", Schema: &schema_j5pb.Field{Type: &schema_j5pb.Field_Integer{Integer: &schema_j5pb.IntegerField{Format: schema_j5pb.IntegerField_FORMAT_INT32}}}}}}}}},
 			root,
